@@ -446,6 +446,8 @@ func (a *ActionSetField) Len() (n uint16) {
 }
 
 func (a *ActionSetField) MarshalBinary() (data []byte, err error) {
+	// sized when encoded: the field may have been replaced or given a mask since the constructor ran
+	a.Length = a.Len()
 	data = make([]byte, int(a.Len()))
 	n := 0
 	b, err := a.ActionHeader.MarshalBinary()
